@@ -36,6 +36,19 @@ def preIndentComments : Nat → List Str → P (List Str)
     else if t.type == .newline then let _ ← advance; preIndentComments fuel acc
     else pure acc
 
+/-- `_comment_belongs_to_outer_level`: scan from the cursor (a COMMENT) to the next non-comment line. -/
+def scanOuter (childIndent : Nat) : List Token → Nat → Bool
+  | [], _ => true
+  | t :: ts, li =>
+    if t.type == .comment then scanOuter childIndent ts li
+    else if t.type == .newline then scanOuter childIndent ts 0
+    else if t.type == .indent then scanOuter childIndent ts (match t.value with | .nat n => n | _ => 0)
+    else li < childIndent
+
+def commentBelongsOuter (lineIndent childIndent : Nat) : P Bool := do
+  if lineIndent ≥ childIndent then return false
+  return scanOuter childIndent (← get).rest lineIndent
+
 mutual
 /-- `parse_section(base_indent, leading_comments)`; `none` = Python `None`. -/
 def parseSection : Nat → List Str → P (Option Node)
@@ -68,16 +81,26 @@ def parseSection : Nat → List Str → P (Option Node)
         let _ ← advance
         let nx ← current
         if nx.type == .identifier && nx.line == op.line then throw (parserError "E001" op)
-        skipWhitespace
+        skipWhitespace false
+        let stPre ← get
+        let pre ← preIndentComments (← budget) []
+        let c0 ← current
+        let blockIndent := t.col - 1
+        let hasIndented := c0.type == .indent && (match c0.value with | .nat n => n | _ => 0) > blockIndent
+        if c0.type != .fenceOpen && !hasIndented then set stPre
         let c ← current
-        if c.type == .fenceOpen then
+        let fenceChild : Option Nat := if c.type == .fenceOpen && c.col - 1 > blockIndent then some (c.col - 1) else none
+        if c.type == .fenceOpen && fenceChild.isNone then
           let z ← parseLiteralZone
           let c2 ← current
-          pure (some (.block key [.assign [] z c2.line c2.col [] none] t.line t.col leading target))
-        else if c.type == .indent then
-          let childIndent := (match c.value with | .nat n => n | _ => 0)
-          let _ ← advance
-          let children ← blockLoop fuel childIndent childIndent [] [] []
+          pure (some (.block key [.assign [] z c2.line c2.col pre none] t.line t.col leading target))
+        else if hasIndented || fenceChild.isSome then
+          let childIndent ← (match fenceChild with
+            | some fi => pure fi
+            | none => do
+              let _ ← advance
+              pure (match c.value with | .nat n => n | _ => 0) : P Nat)
+          let children ← blockLoop fuel childIndent childIndent pre [] []
           pure (some (.block key children t.line t.col leading target))
         else pure (some (.block key [] t.line t.col leading target))
       else
@@ -96,12 +119,14 @@ def blockLoop : Nat → Nat → Nat → List Str → List Node → KeyPos → P 
       if v < childIndent then pure finish
       else let _ ← advance; blockLoop fuel childIndent v pending children kp
     else if t.type == .comment then
-      let _ ← advance
-      blockLoop fuel childIndent lineIndent (pending ++ [pyStrVal t.value]) children kp
+      if ← commentBelongsOuter lineIndent childIndent then pure finish
+      else
+        let _ ← advance
+        blockLoop fuel childIndent lineIndent (pending ++ [pyStrVal t.value]) children kp
     else if t.type == .newline then
       let _ ← advance
       blockLoop fuel childIndent 0 pending children kp
-    else if lineIndent < childIndent then pure finish
+    else if (if t.type == .fenceOpen then t.col - 1 else lineIndent) < childIndent then pure finish
     else if t.type == .fenceOpen then
       let z ← parseLiteralZone
       let c2 ← current
@@ -152,14 +177,18 @@ def parseSectionMarker : Nat → P Node
       else throw (parserError "E006" nameTok) : P Str)
     let annotation ← consumeBracketAnnotation true (← budget)
     skipWhitespace false
+    let stPre ← get
     let pre ← preIndentComments (← budget) []
     let c ← current
-    if c.type == .indent then
+    if c.type == .indent && (match c.value with | .nat n => n | _ => 0) > sectionTok.col - 1 then
       let childIndent := (match c.value with | .nat n => n | _ => 0)
       let _ ← advance
       let children ← sectionLoop fuel childIndent childIndent pre [] []
       pure (.sect sectionId name annotation children sectionTok.line sectionTok.col [])
-    else pure (.sect sectionId name annotation (pre.map Node.comment) sectionTok.line sectionTok.col [])
+    else
+      -- no indented children: `self.pos = pre_indent_pos` (the comments stay with the enclosing level)
+      set stPre
+      pure (.sect sectionId name annotation [] sectionTok.line sectionTok.col [])
 
 /-- the `while True` child loop of a Section. -/
 def sectionLoop : Nat → Nat → Nat → List Str → List Node → KeyPos → P (List Node)
@@ -173,8 +202,10 @@ def sectionLoop : Nat → Nat → Nat → List Str → List Node → KeyPos → 
       if v < childIndent then pure finish
       else let _ ← advance; sectionLoop fuel childIndent v pending children kp
     else if t.type == .comment then
-      let _ ← advance
-      sectionLoop fuel childIndent lineIndent (pending ++ [pyStrVal t.value]) children kp
+      if ← commentBelongsOuter lineIndent childIndent then pure finish
+      else
+        let _ ← advance
+        sectionLoop fuel childIndent lineIndent (pending ++ [pyStrVal t.value]) children kp
     else if t.type == .section && lineIndent < childIndent then pure finish
     else if t.type == .newline then
       let _ ← advance
